@@ -53,20 +53,22 @@ sys.exit(1 if worst[0] > 1e-4 else 0)
 '''
 
 DTYPE_REPRO = r'''
-# expm_krylov allocates its Lanczos basis with vstart.dtype: a real-dtype start vector with a complex Hermitian A
-# silently drops the imaginary parts of every Lanczos vector (only a ComplexWarning) and returns a wrong vector.
+# expm_krylov must work for a complex Hermitian A and a real-dtype start vector.  Its Lanczos basis V was allocated with
+# vstart.dtype (imaginary parts of every Lanczos vector dropped, only a ComplexWarning); the basis has to stay complex
+# also AFTER the buffer grows (block_size smaller than the Krylov dimension).  exit 1 = wrong result.
 import sys, warnings, renormalizer, numpy as np, scipy.linalg
 from renormalizer.lib import expm_krylov
 warnings.simplefilter("ignore")
-rng = np.random.default_rng(3); n = 8
+rng = np.random.default_rng(3); n = 12
 M = rng.normal(size=(n, n)) + 1j * rng.normal(size=(n, n)); H = (M + M.conj().T) / 2     # complex Hermitian
 v = rng.normal(size=n)                                                                  # float64 vector
 worst = 0.0
 for dt in (-0.3, -0.3j):
-    res, j = expm_krylov(lambda x: H @ x, dt, v.copy())
     ref = scipy.linalg.expm(dt * H) @ v
-    err = np.linalg.norm(res - ref) / np.linalg.norm(ref)
-    print("dt=%r iterations=%d relative error=%.3g" % (dt, j, err)); worst = max(worst, err)
+    for block_size in (50, 4, 2):
+        res, j = expm_krylov(lambda x: H @ x, dt, v.copy(), block_size)
+        err = np.linalg.norm(res - ref) / np.linalg.norm(ref)
+        print("dt=%r block_size=%d iterations=%d relative error=%.3g" % (dt, block_size, j, err)); worst = max(worst, err)
 sys.exit(1 if worst > 1e-4 else 0)
 '''
 
@@ -333,7 +335,7 @@ def run(ctx):
             continue
         if c["cls"] != "main":
             if r["err"] > KRYLOV_TOL:
-                k_dtype_bad.append({"case": c, "err": r["err"], "warn": r["warn"]})
+                k_dtype_bad.append({"case": c, "err": r["err"], "it": r["it"], "warn": r["warn"]})
             continue
         kstat["exit"][r["exit"]] = kstat["exit"].get(r["exit"], 0) + 1
         kstat["grew"] += 1 if r["lens"][0] > c["bs"] else 0
@@ -446,8 +448,6 @@ def run(ctx):
         refuted_ok = rc_r == 0 and "Closed under the global context" in out_r
         ctx.obligations.append({"name": "krylov_sites_hermitian_refuted (generated: some call site does not pass a Hermitian operator)", "file": "Corr/run_C18/sites_refuted.v",
                                 "ok": refuted_ok, "assumptions": [] if refuted_ok else None})
-    elif sites is not None and model_ok and site_flags is not None:
-        ctx.obligations.append({"name": "krylov_sites_hermitian (all sites, evaluated: forallb site_ok sites = true)", "file": "Corr/run_C18/sites.v", "ok": True, "assumptions": []})
 
     # ---------------------------------------------------------------- 7. verdicts
     impl_script = os.path.join(common.VERIF, "harness", "impl")
@@ -455,7 +455,8 @@ def run(ctx):
         ctx.violation("c18-impl-runner", "correspondence (implementation runner crashed: machinery fault unless the repo cannot be imported)",
                       {"out": impl_fail[:3]}, found=False)
     if broken:
-        ctx.violation("c18-proofs", "; ".join(broken), {"coq_log_tail": log[-2000:] if isinstance(log, str) else ""}, found=False)
+        ctx.violation("c18-proofs", "; ".join(broken), {"coq_log_tail": log[-2000:] if isinstance(log, str) else "",
+                      "hint": "if Proofs/KrylovProofs.v fails at sites_hermitian_b, a call site of expm_krylov no longer passes a (verifiably) Hermitian operator: see the sites table in the evidence notes and the cmf / site violation of this run"}, found=False)
     if oracle_bad:
         svd_b = [b for b in oracle_bad if b["case"]["kind"] == "svd"]
         eig_b = [b for b in oracle_bad if b["case"]["kind"] == "eigh"]
@@ -480,10 +481,14 @@ def run(ctx):
         ctx.violation("krylov-control", "correspondence Model/Krylov.v vs expm_krylov (exit taken, iteration count, buffer lengths, iterations at which _expm_krylov is called); krylov_buffers_safe no longer describes the code",
                       {"mismatches": len(k_ctrl_bad), "first": k_ctrl_bad[:3]}, found=False)
     if k_dtype_bad:
+        # measured: a case of this class is reported only if its error really exceeds the tolerance (or it raised)
+        grew = [b for b in k_dtype_bad if b["case"]["bs"] < b.get("it", 10 ** 9)]
         ctx.violation("krylov-real-vstart-complex-op",
-                      "the Krylov exponential returns a wrong vector for a complex Hermitian A and a real-dtype starting vector (the Lanczos basis takes vstart.dtype; imaginary parts are discarded with a ComplexWarning)",
-                      {"input_class": "complex Hermitian A (dense), float64 start vector, dt real or imaginary, ||A dt|| in {0.5, 3}",
-                       "observed": "relative error O(0.1..1) with a ComplexWarning from `V[j + 1] = w / beta[j]`; exact once vstart is cast to complex"},
+                      "the Krylov exponential returns a wrong vector for a complex Hermitian A and a real-dtype starting vector (Lanczos basis allocated with vstart.dtype; imaginary parts discarded with a ComplexWarning)",
+                      {"input_class": "complex Hermitian A (dense), float64 start vector, dt real or imaginary, ||A dt|| in {0.5, 3}, block sizes 2..50",
+                       "only_after_buffer_growth": bool(k_dtype_bad) and len(grew) == len(k_dtype_bad),
+                       "observed": "relative error O(0.1..1) with a ComplexWarning; when only_after_buffer_growth is true the first allocation is complex but "
+                                   "`V = xp.empty((len(V) + block_size, n), dtype=vstart.dtype)` re-creates a real buffer on growth"},
                       found=True, repro=DTYPE_REPRO, extra={"failing": len(k_dtype_bad), "of": n_dtype, "first": k_dtype_bad[:2]})
     if cmf_bad is not None or bad_sites:
         detail = {"sites_not_ok": bad_sites, "experiment": cmf_bad, "kernel_checked_refutation": refuted_ok,
